@@ -1723,6 +1723,7 @@ class Stream(AbstractStream):
                 phase, = phases
                 imol = other._imol.get_phase(phase)
             else:
+                self.empty() # All flows are replaced; the current phase may not be among the new phases
                 self.phases = other.phases
                 imol = other._imol
         else:
